@@ -27,7 +27,7 @@ type Engine struct {
 
 // NewEngine returns an engine with default budgets.
 func NewEngine(P *core.Program) *Engine {
-	return &Engine{P: P, MaxDepth: 8, MaxSteps: 200000, MaxPaths: 4096}
+	return &Engine{P: P, MaxDepth: 12, MaxSteps: 200000, MaxPaths: 4096}
 }
 
 // Result is the outcome of one path.
@@ -478,9 +478,25 @@ func (e *Engine) exec(p *Path, fr *Frame, in ssa.Instruction) {
 	case *ssa.Call:
 		fr.env[x] = e.doCall(p, fr, &x.Call, x)
 	case *ssa.Defer:
-		// deferred calls are recorded but only mutex/cleanup idioms occur in the analysed functions
-		p.note("defer %s not interpreted", core.CalleeName(&x.Call))
-	case *ssa.RunDefers, *ssa.DebugRef:
+		// operands are evaluated now (SSA values are immutable in the frame), the call runs at RunDefers
+		for _, a := range x.Call.Args {
+			e.operand(p, fr, a)
+		}
+		if !x.Call.IsInvoke() {
+			e.operand(p, fr, x.Call.Value)
+		}
+		d := x
+		fr.defers = append(fr.defers, func() { e.doCall(p, fr, &d.Call, d) })
+	case *ssa.RunDefers:
+		ds := fr.defers
+		fr.defers = nil
+		for i := len(ds) - 1; i >= 0; i-- {
+			ds[i]()
+			if p.Abort != "" || p.Panics != "" {
+				break
+			}
+		}
+	case *ssa.DebugRef:
 	case *ssa.Send:
 		// channel used as a mutex/semaphore: no data effect
 	case *ssa.Select:
